@@ -128,7 +128,7 @@ class DelineateArea(Family):
         return split(out, 5)
 
     def cost(self, inst):
-        return 6 ** (inst['nrows'] * inst['ncols'] - (1 if inst.get('fixed') else 0))
+        return 6 ** (inst['nrows'] * inst['ncols'] - len(inst.get('fixed') or {}))
 
     def inputs(self, inst, S):
         return dict(codes=sym_codes(S, inst['nrows'] * inst['ncols'], inst.get('fixed')))
@@ -229,16 +229,25 @@ class FlowPathLengths(Family):
     srcfile = 'gis/c_catchment.c'
 
     def instances(self, tier):
-        shapes = [(1, 2), (2, 1), (1, 3), (2, 2), (3, 1)] if tier == 'quick' else SHAPES_Q + [(2, 3), (3, 2)]
+        shapes = [(1, 2), (2, 1), (1, 3), (2, 2), (3, 1)] if tier == 'quick' else SHAPES_Q
         out = []
         for r, c in shapes:
             n = r * c
             for outlet in range(n):
                 out.append(dict(nrows=r, ncols=c, outlet=outlet))
-        return split(out)
+        out = split(out)
+        if tier == 'thorough':
+            # 10 code classes per symbolic cell: a 6-cell grid with one pinned cell is 1e5 paths (about 1.5 h of CPU), so the larger shapes
+            # are sampled: 1x5 from the middle outlet (cell 0 pinned per task), 2x3 from one interior outlet with the top row pinned to 30 fixed code triples
+            out += [dict(nrows=1, ncols=5, outlet=2, fixed={'0': c0}) for c0 in CODES]
+            import random
+            rng = random.Random(20260)
+            triples = rng.sample([(a, b, c) for a in CODES for b in CODES for c in CODES], 30)
+            out += [dict(nrows=2, ncols=3, outlet=4, fixed={'0': a, '1': b, '2': c}) for a, b, c in triples]
+        return out
 
     def cost(self, inst):
-        return 6 ** (inst['nrows'] * inst['ncols'] - (1 if inst.get('fixed') else 0))
+        return 6 ** (inst['nrows'] * inst['ncols'] - len(inst.get('fixed') or {}))
 
     def inputs(self, inst, S):
         return dict(codes=sym_codes(S, inst['nrows'] * inst['ncols'], inst.get('fixed')))
@@ -351,7 +360,7 @@ META = dict(
     bounds=['upstream/downstream: every cell (and the two invalid neighbours -1, n) of grids 1x1..3x3 (thorough + 2x4, 3x4)',
             'delineate_area: grids with <= 4 cells (thorough <= 6), every outlet, inlet sets of size <= 1 (thorough <= 2 up to 4 cells), '
             'buffer size n+2 plus buffer-exhaustion and invalid-argument instances',
-            'river / flow-path lengths: grids <= 4 cells (thorough <= 6), every start / outlet'],
+            'river: grids <= 4 cells (thorough <= 6), every start; flow-path lengths: grids <= 4 cells, every outlet (thorough + 1x5 from outlet 2, 2x3 from outlet 4 with the top row pinned to 30 of the 1000 code triples)'],
     outside=['hole filling (scipy binary_fill_holes)', 'grids beyond the bound', 'c_delineate_boundary (not part of the property)'],
     assumptions=['flow codes restricted to the ten listed values (one representative invalid code)',
                  'unwinding: a path executing more than 400000 IR instructions is reported as bound-exceeded, never as success'],
